@@ -235,6 +235,11 @@ def run_deconv2d(c, rec):
         require(maxdiff(P, A(c["PSF_array"])) == 0, "the stated PSF is not the array that was passed")
     else:
         require(P.shape == (c["PSF_size"], c["PSF_size"]) and abs(P.sum() - 1) < 1e-12 and np.all(P >= 0), "named PSF is not a normalised kernel of the stated size")
+        if c["PSF_size"] % 2 == 1:
+            # Gauss / Moffat / defocus kernels are even functions of the offset from the centre pixel
+            ctr = c["PSF_size"] // 2
+            require(maxdiff(P, P[::-1, ::-1]) <= 1e-14 and P[ctr, ctr] == P.max(),
+                    "named PSF of odd size is not symmetric about / maximal at its centre pixel", P=P)
     bc = c["BC"].lower()
     x = A(c["x"])
     want = conv2_direct(x.reshape(dim, dim), P, bc).ravel()
@@ -253,6 +258,15 @@ def run_deconv2d(c, rec):
     require(close(np.asarray(tp.data) - np.asarray(tp.exactData), sig * e, 1e-9), "data - exactData is not noise of the stated type/level")
     wantl = gauss_loglik(np.asarray(tp.data) - want, sig) + float(tp.prior.logd(x))
     require(close(float(tp.posterior.logd(x)), wantl, 1e-9), "posterior log-density is not Gaussian log-likelihood plus log-prior")
+    # using the problem (adjoint, gradient) must not change it: same forward values, same log-density, same PSF afterwards
+    P_before = P.copy()
+    refuses(lambda: tp.model.adjoint(np.asarray(tp.data, dtype=float)))
+    refuses(lambda: tp.posterior.gradient(x.copy()))
+    require(close(tp.model.forward(x), want, 1e-9), "Deconvolution2D: the forward model changed after its adjoint / the posterior gradient was evaluated")
+    require(close(float(tp.posterior.logd(x)), wantl, 1e-9), "Deconvolution2D: the posterior log-density of the same point changed after a gradient evaluation")
+    require(maxdiff(np.asarray(tp.Miscellaneous["PSF"], dtype=float), P_before) == 0, "Deconvolution2D: the stated PSF changed while the problem was used")
+    if c["PSF"] == "array":
+        require(maxdiff(np.asarray(PSF, dtype=float), A(c["PSF_array"])) == 0, "Deconvolution2D altered the PSF array that was passed in")
 
 
 # ----------------------------------------------------------------------------- PDE problems
